@@ -6,7 +6,7 @@ import time
 from .. import obs as O
 from .. import sgr_model as M
 from ..gen import Exec, HistoryGen
-from ..monitor import Contract, Call  # noqa: F401
+from ..monitor import Contract, Call, StepBudgetExceeded  # noqa: F401
 
 FLAG_COMBOS = [(o, rs, re_) for o in (True, False) for rs in (False, True) for re_ in (True, False)]
 
@@ -127,11 +127,18 @@ def case_rng(ctx, case):
 def run_cases(ctx, mon, ncases, body, wall=None, only_case=None):
     """Run `body(rng, ex, case_no)` for case numbers assigned to this shard."""
     L = ctx.L
+    # soft wall-clock cap well inside the runner's watchdog: a shard that is slowed down (e.g. by calls that run
+    # into the step budget) stops generating and still reports what it observed; never a verdict by itself
+    if wall is None:
+        wall = 360 if ctx.tier == 'quick' else 3600
     bud = Budget(wall) if wall else None
     cases = range(ncases) if only_case is None else [only_case]
     for case in cases:
         if bud is not None and bud.over():
             ctx.extra['time_capped_at_case'] = case
+            break
+        if ctx.extra.get('n_budget_violations', 0) >= 3:
+            ctx.extra['stopped_after_budget_violations'] = True
             break
         rng = case_rng(ctx, case)
         ctx.case = {'seed': ctx.seed, 'tier': ctx.tier, 'shard': ctx.shard, 'case': case}
@@ -140,6 +147,9 @@ def run_cases(ctx, mon, ncases, body, wall=None, only_case=None):
         ctx.cases += 1
         try:
             body(rng, ex, case)
+        except StepBudgetExceeded:
+            # the contract has already judged the call; the rest of this case is abandoned
+            ctx.aborted['step-budget-exceeded'] += 1
         except Exception:
             ctx.oracle_error('driver case %s' % case)
     ctx.history = None
